@@ -55,15 +55,73 @@ var unsafeName = regexp.MustCompile(`[^A-Za-z0-9_.-]+`)
 func proofCheck(ck *Check) int {
 	P := ck.P
 	ck.assume = map[string]bool{}
+	ck.unmerged = unmergedProps[ck.Prop]
 	ck.verifyFunctions(func(c *Contract) bool { return hasProp(c, ck.Prop) && !c.ByExec })
+	ck.unmerged = false
 	ck.proveLemmas()
 	ck.dataObligations()
 	ck.findingCanaries()
 	if f, ok := extraChecks[ck.Prop]; ok {
 		f(ck)
 	}
+	// A property assembled from others re-discharges their obligations as part
+	// of its own check (a change that breaks one of the parts breaks the whole).
+	own := ck.Prop
+	seenFn := map[string]bool{}
+	for _, x := range ck.execs {
+		seenFn[x.fname] = true
+	}
+	for _, q := range includes[own] {
+		ck.Prop = q
+		ck.verifyFunctions(func(c *Contract) bool {
+			// a function already verified above had its q-tagged clauses skipped: redo it for q
+			return hasProp(c, q) && !c.ByExec
+		})
+		ck.proveLemmas()
+		ck.dataObligations()
+		if q == "C01" {
+			ck.runTreeStandIn(own)
+		}
+	}
+	ck.Prop = own
+	if own == "C02" {
+		failing := false
+		for _, r := range ck.results {
+			if r.Status != "unsat" {
+				failing = true
+			}
+		}
+		for _, d := range ck.bounded {
+			if d["ok"] != true {
+				failing = true
+			}
+		}
+		if failing || ck.Tier == "thorough" {
+			ck.runConcreteSearch(failing, "C02", "c02_browser_test.go", "^TestGovcC02$",
+				"configurations x browser intents (origin, method, header-name subsets, credentials mode, PNA) x debug x tolerated ACRH perturbations; browser side = transcription of Fetch's CORS-preflight fetch and CORS check, meaning side = the statement of C02 evaluated on the Config as written")
+		}
+	}
+	if len(includes[own]) > 0 {
+		if ck.extraCov == nil {
+			ck.extraCov = map[string]any{}
+		}
+		ck.extraCov["includes_obligations_of"] = includes[own]
+	}
 	_ = P
 	return ck.finish("proof")
+}
+
+// unmergedProps: properties whose own clauses are checked path by path (no
+// state merging in inlined helpers): many small conjunctive VCs instead of few
+// VCs with guarded disjunctions, which the solvers did not decide for C02.
+var unmergedProps = map[string]bool{"C02": true}
+
+// includes: properties whose obligations are part of another property's check.
+var includes = map[string][]string{
+	// C02 (browser verdict == configuration meaning) is assembled from the handler clauses proved under C02
+	// and from: the compiled configuration means what was written (C15), origin membership (C01),
+	// headers.Check == Approved (C14), response shape (C03), debug invariance (C09), failure uniformity (C16)
+	"C02": {"C15", "C14", "C01", "C03", "C09", "C16"},
 }
 
 var extraChecks = map[string]func(*Check){}
